@@ -297,6 +297,9 @@ func (e *Exec) recordViolation(kind, label, detail string, m Model) {
 
 // Assert is the property obligation.
 func (e *Exec) Assert(c *Term, label string) {
+	if !e.replaying() || c.IsConst() {
+		e.eng.countObligation(e.h)
+	}
 	if c.IsConst() {
 		if c.k == 0 {
 			e.needModel()
@@ -309,7 +312,6 @@ func (e *Exec) Assert(c *Term, label string) {
 		e.assertPC(c) // already checked by the path that created this prefix
 		return
 	}
-	e.eng.countObligation(e.h)
 	nc := e.tc.BNot(c)
 	found := false
 	if !c.uf && e.modelOK {
@@ -377,11 +379,11 @@ func (e *Exec) vpCall(caller *frame, fn *ssa.Function, args []Value) Value {
 		return Slice{c: ao.cells, obj: ao}
 	case "Choice":
 		kt := args[0].(*Term)
-		if !kt.IsConst() {
-			e.unsupported("vp.Choice with symbolic k")
+		kv := int(e.Concretize(kt, false, "vp.Choice bound"))
+		c := e.Choice(kv)
+		if kv > 1 {
+			e.draws = append(e.draws, Draw{Fn: "Choice", N: kv, cval: int64(c)})
 		}
-		c := e.Choice(int(kt.k))
-		e.draws = append(e.draws, Draw{Fn: "Choice", N: int(kt.k), cval: int64(c)})
 		return tc.BV(uint64(c), 64)
 	case "Assume":
 		e.Assume(args[0].(*Term))
